@@ -9,6 +9,7 @@
  *   -DNB=n -DRD=...        number of bytes present after RDLENGTH and their cells {kind,val} (kind 1 = concrete,
  *                          0 = arbitrary byte): embedded length bytes / names are concrete, values symbolic
  *   -DSECT=1|2|3           section; -DFLAGS=n parse flags (default: symbolic, decides typed vs. RAW_RR decoding)
+ *   -DEXPECT_OK            the job's shape must be accepted for every value of the symbolic bytes
  *   TTL is always symbolic.
  * Oracle: SUCCESS => exactly one RR in the section, cursor exactly at RDATA start + RDLENGTH (the
  * processed-length/RDLENGTH reconciliation), owner name "a", every key of the RR's type readable and well formed
@@ -106,6 +107,9 @@ void harness(void)
   cnt = ares_dns_record_rr_cnt(rec, (ares_dns_section_t)SECT);
 
   VP_ASSERT(pos <= TOTAL, "cursor stays inside the fragment");
+#ifdef EXPECT_OK
+  VP_ASSERT(st == ARES_SUCCESS, "a well-formed RR whose acceptance does not depend on symbolic bytes is accepted");
+#endif
   if (st == ARES_SUCCESS) {
     VP_ASSERT(RDLEN <= NB, "success only when RDLENGTH bytes are really there");
     VP_ASSERT(pos == HDR + RDLEN, "on success the cursor is exactly RDLENGTH past the start of RDATA");
